@@ -57,6 +57,10 @@ def _geometry(case):
         return cuqi.geometry.StepExpansion(np.array([0.0, 1.0, 2.0]), n_steps=2)
     if geo == "scale":
         return cuqi.geometry.MappedGeometry(cuqi.geometry.Continuous1D(n), map=lambda v: 2 * v, imap=lambda v: v / 2)
+    if geo == "kl":
+        # an expansion geometry that is a SUBCLASS of Continuous1D (all modes kept): orthogonal-times-diagonal par2fun,
+        # numeric in the replayer (DESIGN 5/C07); derived from the spec's `cont` cases
+        return cuqi.geometry.KLExpansion(np.linspace(0, 1, n))
     raise ValueError(geo)
 
 
@@ -67,12 +71,55 @@ def build_problem(case):
     if geom is not None:
         # the spec's E is the matrix of the geometry's own par2fun (original object, untouched by the calls under test)
         E = np.array([np.asarray(geom.par2fun(e), dtype=float) for e in np.eye(case["n"])]).T
-        if not np.array_equal(E, L.inp(case["E"])):
+        if case["geo"] != "kl" and not np.array_equal(E, L.inp(case["E"])):
             raise L.MachineryError("par2fun of geometry %s is not the matrix E assumed by the spec (see C13)" % case["geo"])
     model = L.linear_model(case["A"], case["mdl"], domain_geometry=geom)
     x = L.build_prior(case, case["n"], geometry=geom)
     y = cuqi.distribution.Gaussian(model(x), name="y", **L.gauss_kwargs(case["noise"]))
     return cuqi.problem.BayesianProblem(x, y).set_data(y=L.inp(case["y"]))
+
+
+def check_map_kl(ctx, case):
+    """The spec's closed form with the geometry matrix E read off the (original) KLExpansion object: from a `cont` case
+    (E = I, G = A) the prior precision P0 = Lam - G'PeG and P0 mu0 = rhs - G'Pe y are exact; the expected posterior mean
+    for the expansion geometry is (E'G'PeGE + P0)^-1 (E'G'Pe y + P0 mu0)."""
+    L = _L()
+    c = dict(case, geo="kl")
+    n = case["n"]
+    try:
+        with L.quiet():
+            geom = _geometry(c)
+            E = np.array([np.asarray(geom.par2fun(e), dtype=float) for e in np.eye(n)]).T
+            BP = build_problem(c)
+    except L.MachineryError:
+        raise
+    except Exception:
+        _outcome(ctx, "build/error/geom=kl")
+        return
+    G, Pe, y = L.inp(case["G"]), L.inp(case["Pe"]), L.inp(case["y"])
+    Lam, rhs = L.inp(case["Lam"]), L.inp(case["rhs"])
+    P0 = Lam - G.T @ Pe @ G
+    b0 = rhs - G.T @ Pe @ y
+    G2 = G @ E
+    mu = np.linalg.solve(G2.T @ Pe @ G2 + P0, G2.T @ Pe @ y + b0)
+    ctx.case(("map-kl", _sig(c, "")), facet="map/kl")
+    try:
+        with L.quiet():
+            xm = BP.MAP()
+        info = getattr(xm, "info", None)
+        xm = np.asarray(xm, dtype=float).ravel()
+    except Exception:
+        _outcome(ctx, "MAP/error/kl")          # failing instead of returning another point is allowed
+        return
+    direct = isinstance(info, dict) and info.get("solver") == "direct"
+    if xm.shape != (n,) or not np.all(np.isfinite(xm)):
+        ctx.mismatch(_sig(c, "map/shape"), c, "MAP estimate is not a finite parameter vector", expected=mu, observed=xm)
+    elif direct and L.rel_err(xm, mu) > 1e-6:
+        ctx.mismatch(_sig(c, "map/direct"), c, "closed-form MAP with an expansion geometry (KLExpansion, all modes) is not the "
+                     "posterior mean of the parameter-to-data map", expected=mu, observed=xm)
+    elif not direct and not _flagged(info) and L.rel_err(xm, mu) > 1e-3:
+        ctx.mismatch(_sig(c, "map/optimise"), c, "MAP estimate with an expansion geometry is not the maximiser of the posterior",
+                     expected=mu, observed=xm)
 
 
 def _outcome(ctx, key):
@@ -363,6 +410,8 @@ def run(ctx):
     _deviations(ctx, devs)
     for c in map_cases:
         check_map_case(ctx, c)
+        if c["geo"] == "cont" and c["n"] >= 2:
+            check_map_kl(ctx, c)
     pcs = [c for c in poly_cases if c["pd"]]
     if ctx.tier == "quick":
         pcs = [c for i, c in enumerate(pcs) if i % 3 == ctx.seed % 3]
